@@ -158,6 +158,21 @@ class Parser:
             return ("pctor", v, inner)
         return ("pvar", v)
 
+    def type_closure(self):
+        # skip a type inside a closure parameter list (ends at , or |)
+        depth = 0
+        while True:
+            k, v = self.peek()
+            if v in ("<", "(", "["):
+                depth += 1
+            elif v in (">", ")", "]"):
+                depth -= 1
+            elif v in (",", "|") and depth == 0:
+                return
+            elif k == "eof":
+                raise Untranslatable("eof in closure type")
+            self.next()
+
     def type_(self):
         # skip a type
         depth = 0
@@ -338,6 +353,33 @@ class Parser:
         if v == "{":
             self.i -= 1
             return self.block()
+        if v == "|":
+            # closure |a, b| expr   (parameters: identifiers, optionally `&x` / typed)
+            params = []
+            while not self.accept("|"):
+                self.accept("&")
+                self.accept("mut")
+                pk, pv = self.next()
+                if pk != "ident":
+                    raise Untranslatable("closure parameter %r" % pv)
+                if self.accept(":"):
+                    self.type_closure()
+                params.append(pv)
+                self.accept(",")
+            if self.peek()[1] == "{":
+                body = self.block()
+            else:
+                body = self.expr()
+            return ("closure", params, body)
+        if k == "ident" and v == "vec!":
+            self.expect("[")
+            items = []
+            while not self.accept("]"):
+                items.append(self.expr())
+                if self.peek()[1] == ";":
+                    raise Untranslatable("vec![x; n]")
+                self.accept(",")
+            return ("vec", items)
         if k == "ident":
             if v in ("true", "false"):
                 return ("bool", v == "true")
@@ -482,7 +524,11 @@ NUMT = "T"   # the NumOps carrier
 
 
 def rust_type_to_ty(t):
-    t = t.strip().lstrip("&").strip()
+    t = t.strip()
+    while t.startswith("&"):
+        t = t[1:].strip()
+    if t.startswith("mut "):
+        t = t[4:].strip()
     if t in ("f32", "f64"):
         return NUMT
     if t in ("usize", "u64", "u32", "u8"):
@@ -494,21 +540,78 @@ def rust_type_to_ty(t):
     m = re.match(r"Option<(.*)>$", t)
     if m:
         return ("option", rust_type_to_ty(m.group(1)))
-    if t in STRUCTS or t == "Self":
-        return ("struct", t)
+    base = re.sub(r"<.*>$", "", t)          # Coord<f64> -> Coord
+    if base in STRUCTS or base == "Self":
+        return ("struct", base)
+    if base in ENUMS:
+        return ("enum", base)
     return ("opaque", t)
 
 
-# struct name -> list of (field, type)
+# struct name -> list of (field, type);  enum name -> list of (ctor, [arg types])
 STRUCTS = {}
+ENUMS = {}
+
+
+def canon(e):
+    """Canonical text of an expression AST (used as the key of Item.subst); None if not supported."""
+    k = e[0]
+    if k == "path":
+        return "::".join(e[1])
+    if k == "num":
+        return str(e[1])
+    if k == "bool":
+        return "true" if e[1] else "false"
+    if k == "field":
+        c = canon(e[2])
+        return None if c is None else "%s.%s" % (c, e[1])
+    if k == "tfield":
+        c = canon(e[2])
+        return None if c is None else "%s.%d" % (c, e[1])
+    if k == "mcall":
+        c = canon(e[2])
+        args = [canon(a) for a in e[3]]
+        if c is None or any(a is None for a in args):
+            return None
+        return "%s.%s(%s)" % (c, e[1], ", ".join(args))
+    if k == "call":
+        args = [canon(a) for a in e[2]]
+        if any(a is None for a in args):
+            return None
+        return "%s(%s)" % ("::".join(e[1]), ", ".join(args))
+    if k == "bin":
+        a, b = canon(e[2]), canon(e[3])
+        return None if a is None or b is None else "(%s %s %s)" % (a, e[1], b)
+    if k == "neg":
+        a = canon(e[1])
+        return None if a is None else "(-%s)" % a
+    if k == "not":
+        a = canon(e[1])
+        return None if a is None else "(!%s)" % a
+    if k == "cast":
+        a = canon(e[2])
+        return None if a is None else "(%s as %s)" % (a, e[1])
+    return None
+
+
+def canon_text(txt):
+    c = canon(Parser(tokenize(txt)).expr())
+    if c is None:
+        raise Untranslatable("subst key not canonisable: %s" % txt)
+    return c
 
 
 class Emitter:
-    def __init__(self, items_by_path, self_struct=None):
-        self.items = items_by_path       # rust path tail (e.g. 'too_far', 'BoundingBox::intersection') -> (coq name, ret ty)
+    def __init__(self, items_by_path, self_struct=None, subst=None, opaque_lets=()):
+        self.items = items_by_path       # rust path tail (e.g. 'too_far', 'BoundingBox::intersection') -> (coq name, ret ty, param tys)
         self.self_struct = self_struct
         self.asserts = []
         self.casts = []
+        self.erased = []
+        self.subst = subst or {}         # canonical text -> (coq binder, ty)
+        self.subst_used = set()
+        self.opaque_lets = set(opaque_lets)
+        self.opaque_seen = set()
 
     def ty_str(self, ty):
         if ty == NUMT:
@@ -518,8 +621,12 @@ class Emitter:
         if isinstance(ty, tuple):
             if ty[0] == "option":
                 return "(option %s)" % self.ty_str(ty[1])
+            if ty[0] == "list":
+                return "(list %s)" % self.ty_str(ty[1])
             if ty[0] == "struct":
                 return "(%s num)" % self.struct_name(ty[1])
+            if ty[0] == "enum":
+                return "(%s num)" % ty[1]
             if ty[0] == "tuple":
                 return "(" + " * ".join(self.ty_str(x) for x in ty[1]) + ")%type"
         raise Untranslatable("type %r" % (ty,))
@@ -542,8 +649,20 @@ class Emitter:
             return "(one num)"
         return "(of_Q num (%d # %d))" % (fr.numerator, fr.denominator)
 
+    @staticmethod
+    def opt_inner(want):
+        return want[1] if isinstance(want, tuple) and want[0] == "option" else None
+
+    def body_of(self, b, env, want=None):
+        return self.block(b, env, want) if b[0] == "block" else self.expr(b, env, want)
+
     def expr(self, e, env, want=None):
         """returns (coq_text, ty)"""
+        if self.subst:
+            c = canon(e)
+            if c is not None and c in self.subst:
+                self.subst_used.add(c)
+                return self.subst[c]
         k = e[0]
         if k == "num":
             ty = want if want in ("N", "Z", NUMT) else (NUMT if e[2] == "T" else (want or "N"))
@@ -561,18 +680,22 @@ class Emitter:
                 if name in CONSTS:
                     return CONSTS[name][0], CONSTS[name][1]
                 if name == "None":
-                    return "None", ("option", want[1] if isinstance(want, tuple) and want[0] == "option" else None)
+                    return "None", ("option", self.opt_inner(want))
                 raise Untranslatable("unknown identifier %s" % name)
             tail = parts[-1]
             if tail in CONSTS:
                 return CONSTS[tail][0], CONSTS[tail][1]
+            if len(parts) >= 2 and parts[-2] in ENUMS:
+                for cname, cargs in ENUMS[parts[-2]]:
+                    if cname == tail and not cargs:
+                        return "(%s_%s num)" % (parts[-2], tail), ("enum", parts[-2])
             if parts[-2:] == ["f32", "MAX"] or parts[-2:] == ["f64", "MAX"]:
                 raise Untranslatable("f32::MAX")
             raise Untranslatable("unknown path %s" % "::".join(parts))
         if k == "cast":
-            txt, ty = self.expr(e[2], env, want)
-            self.casts.append(e[1])
             tgt = rust_type_to_ty(e[1])
+            txt, ty = self.expr(e[2], env, want if want == tgt else None)
+            self.casts.append(e[1])
             if tgt != ty and not (tgt == NUMT and ty == NUMT):
                 if ty == "N" and tgt == NUMT:
                     return "(of_Q num (inject_Z (Z.of_N %s)))" % txt, NUMT
@@ -589,22 +712,30 @@ class Emitter:
             raise Untranslatable("neg on %s" % (ty,))
         if k == "not":
             txt, ty = self.expr(e[1], env, "bool")
+            if ty != "bool":
+                raise Untranslatable("! on %r" % (ty,))
             return "(negb %s)" % txt, "bool"
         if k == "bin":
             op, a, b = e[1], e[2], e[3]
             if op in ("&&", "||"):
-                ta, _ = self.expr(a, env, "bool")
-                tb, _ = self.expr(b, env, "bool")
+                ta, tya = self.expr(a, env, "bool")
+                tb, tyb = self.expr(b, env, "bool")
+                if tya != "bool" or tyb != "bool":
+                    raise Untranslatable("%s on %r, %r" % (op, tya, tyb))
                 return "(%s %s %s)" % ("andb" if op == "&&" else "orb", ta, tb), "bool"
             # numeric: determine type from whichever side is not a bare int literal
-            ta, tya = self.expr(a, env, want if op in "+-*/" else None) if a[0] != "num" or a[2] == "T" else (None, None)
-            tb, tyb = self.expr(b, env, tya if tya else (want if op in "+-*/" else None)) if True else (None, None)
+            arith = op in ("+", "-", "*", "/")
+            if a[0] != "num" or a[2] == "T":
+                ta, tya = self.expr(a, env, want if arith else None)
+            else:
+                ta, tya = None, None
+            tb, tyb = self.expr(b, env, tya if tya else (want if arith else None))
             if ta is None:
                 ta, tya = self.expr(a, env, tyb)
             if tya != tyb:
                 raise Untranslatable("type mismatch in %s: %r vs %r" % (op, tya, tyb))
             ty = tya
-            if op in ("+", "-", "*", "/"):
+            if arith:
                 if ty == NUMT:
                     f = {"+": "add", "-": "sub", "*": "mul", "/": "div"}[op]
                     return "(%s num %s %s)" % (f, ta, tb), ty
@@ -628,10 +759,10 @@ class Emitter:
                      ">": "(%s.ltb %s %s)" % (p, tb, ta), ">=": "(%s.leb %s %s)" % (p, tb, ta),
                      "==": "(%s.eqb %s %s)" % (p, ta, tb), "!=": "(negb (%s.eqb %s %s))" % (p, ta, tb)}
                 return m[op], "bool"
-            if ty == "bool":
+            if ty == "bool" and op in ("==", "!="):
                 m = {"==": "(Bool.eqb %s %s)" % (ta, tb), "!=": "(negb (Bool.eqb %s %s))" % (ta, tb)}
                 return m[op], "bool"
-            raise Untranslatable("comparison on %r" % (ty,))
+            raise Untranslatable("comparison %s on %r" % (op, ty))
         if k == "field":
             name, obj = e[1], e[2]
             txt, ty = self.expr(obj, env)
@@ -660,6 +791,8 @@ class Emitter:
             if name in ("clone", "to_owned", "as_ref"):
                 return self.expr(obj, env, want)
             if name in ("abs", "floor"):
+                if args:
+                    raise Untranslatable("%s with arguments" % name)
                 txt, ty = self.expr(obj, env, NUMT)
                 if ty != NUMT:
                     raise Untranslatable("%s on %r" % (name, ty))
@@ -669,6 +802,8 @@ class Emitter:
             if name in ("max", "min"):
                 ta, ty = self.expr(obj, env, NUMT)
                 tb, tyb = self.expr(args[0], env, ty)
+                if ty != tyb:
+                    raise Untranslatable("max/min on %r, %r" % (ty, tyb))
                 if ty == NUMT:
                     return "(%s num %s %s)" % (name, ta, tb), ty
                 if ty in ("N", "Z"):
@@ -678,12 +813,33 @@ class Emitter:
                 ta, ty = self.expr(obj, env)
                 if not (isinstance(ty, tuple) and ty[0] == "option"):
                     raise Untranslatable("unwrap_or on %r" % (ty,))
-                tb, _ = self.expr(args[0], env, ty[1])
+                tb, tyb = self.expr(args[0], env, ty[1])
+                if tyb != ty[1]:
+                    raise Untranslatable("unwrap_or default %r for %r" % (tyb, ty))
                 return "(match %s with Some v_ => v_ | None => %s end)" % (ta, tb), ty[1]
             if name in ("is_some", "is_none"):
                 ta, ty = self.expr(obj, env)
+                if not (isinstance(ty, tuple) and ty[0] == "option"):
+                    raise Untranslatable("%s on %r" % (name, ty))
                 r = "(match %s with Some _ => true | None => false end)" % ta
                 return (r if name == "is_some" else "(negb %s)" % r), "bool"
+            if name in ("map", "filter") and len(args) == 1 and args[0][0] == "closure":
+                ta, ty = self.expr(obj, env)
+                if not (isinstance(ty, tuple) and ty[0] == "option" and ty[1] is not None):
+                    raise Untranslatable("%s on %r" % (name, ty))
+                cl = args[0]
+                if len(cl[1]) != 1:
+                    raise Untranslatable("closure arity")
+                b = fresh(cl[1][0])
+                env2 = dict(env)
+                env2[cl[1][0]] = (b, ty[1])
+                if name == "map":
+                    tb, rty = self.body_of(cl[2], env2, None)
+                    return "(match %s with Some %s => Some %s | None => None end)" % (ta, b, tb), ("option", rty)
+                tb, rty = self.body_of(cl[2], env2, "bool")
+                if rty != "bool":
+                    raise Untranslatable("filter predicate of type %r" % (rty,))
+                return "(match %s with Some %s => if %s then Some %s else None | None => None end)" % (ta, b, tb, b), ty
             if name == "contains" and obj[0] == "tuple":
                 raise Untranslatable("range contains")
             # method that is a translated item taking self
@@ -691,6 +847,8 @@ class Emitter:
             if key in self.items:
                 cname, rty, ptys = self.items[key]
                 ta, ty = self.expr(obj, env)
+                if len(args) + 1 != len(ptys):
+                    raise Untranslatable("arity of %s" % name)
                 targs = [ta] + [self.expr(a, env, pt)[0] for a, pt in zip(args, ptys[1:])]
                 return "(%s num %s)" % (cname, " ".join(targs)), rty
             raise Untranslatable("method %s" % name)
@@ -698,24 +856,54 @@ class Emitter:
             parts, args = e[1], e[2]
             tail = parts[-1]
             if tail == "Some" and len(args) == 1:
-                wt = want[1] if isinstance(want, tuple) and want[0] == "option" else None
-                ta, ty = self.expr(args[0], env, wt)
+                ta, ty = self.expr(args[0], env, self.opt_inner(want))
                 return "(Some %s)" % ta, ("option", ty)
             if tail in ("Ok",) and len(args) == 1:
-                ta, ty = self.expr(args[0], env, want[1] if isinstance(want, tuple) and want[0] == "option" else None)
+                ta, ty = self.expr(args[0], env, self.opt_inner(want))
                 return "(Some %s)" % ta, ("option", ty)
             if tail == "Err":
-                return "None", ("option", want[1] if isinstance(want, tuple) and want[0] == "option" else None)
+                return "None", ("option", self.opt_inner(want))
+            if parts == ["LineString"] and len(args) == 1:
+                self.erased.append("LineString(..)")
+                return self.expr(args[0], env, want)
+            if parts[-2:] == ["LineString", "new"] and len(args) == 1:
+                self.erased.append("LineString::new(..)")
+                return self.expr(args[0], env, want)
+            if parts[-2:] == ["Polygon", "new"] and len(args) == 2:
+                if args[1] != ("vec", []):
+                    raise Untranslatable("Polygon::new with interior rings")
+                self.erased.append("Polygon::new(.., vec![])")
+                return self.expr(args[0], env, want)
+            if len(parts) >= 2 and parts[-2] in ENUMS:
+                for cname, cargs in ENUMS[parts[-2]]:
+                    if cname == tail and len(cargs) == len(args):
+                        targs = [self.expr(a, env, ct)[0] for a, ct in zip(args, cargs)]
+                        return "(%s_%s num %s)" % (parts[-2], tail, " ".join(targs)), ("enum", parts[-2])
             key2 = "::".join(parts[-2:])
             for key in (key2, tail):
                 if key in self.items:
                     cname, rty, ptys = self.items[key]
-                    targs = [self.expr(a, env, pt)[0] for a, pt in zip(args, ptys)]
+                    if len(args) != len(ptys):
+                        raise Untranslatable("arity of %s" % key)
+                    targs = []
+                    for a, pt in zip(args, ptys):
+                        ta, tya = self.expr(a, env, pt)
+                        if tya != pt and not (pt == ("struct", "Self")):
+                            raise Untranslatable("argument of %s: %r for %r" % (key, tya, pt))
+                        targs.append(ta)
                     return "(%s num %s)" % (cname, " ".join(targs)), rty
             raise Untranslatable("call %s" % "::".join(parts))
         if k == "tuple":
-            parts = [self.expr(x, env) for x in e[1]]
+            wants = want[1] if isinstance(want, tuple) and want[0] == "tuple" and len(want[1]) == len(e[1]) else [None] * len(e[1])
+            parts = [self.expr(x, env, w) for x, w in zip(e[1], wants)]
             return "(" + ", ".join(p[0] for p in parts) + ")", ("tuple", [p[1] for p in parts])
+        if k == "vec":
+            wi = want[1] if isinstance(want, tuple) and want[0] == "list" else None
+            parts = [self.expr(x, env, wi) for x in e[1]]
+            tys = [p[1] for p in parts]
+            if any(t != tys[0] for t in tys):
+                raise Untranslatable("vec! of mixed types")
+            return "[" + "; ".join(p[0] for p in parts) + "]", ("list", tys[0] if tys else wi)
         if k == "struct":
             sname = e[1][-1]
             sname = self.struct_name(sname)
@@ -724,19 +912,29 @@ class Emitter:
             vals = {}
             for fname, fe in e[2]:
                 vals[fname] = fe
+            known = {f for f, _ in STRUCTS[sname]} | STRUCT_SKIP.get(sname, set())
+            for fname in vals:
+                if fname not in known:
+                    raise Untranslatable("struct literal %s has unknown field %s" % (sname, fname))
             args = []
             for (fname, fty) in STRUCTS[sname]:
                 if fname not in vals:
                     raise Untranslatable("struct literal %s lacks %s" % (sname, fname))
-                args.append(self.expr(vals[fname], env, fty)[0])
+                ta, tya = self.expr(vals[fname], env, fty)
+                if tya != fty and not (isinstance(fty, tuple) and fty[0] == "option" and isinstance(tya, tuple) and tya[0] == "option" and tya[1] in (None, fty[1])):
+                    raise Untranslatable("field %s.%s: %r for %r" % (sname, fname, tya, fty))
+                args.append(ta)
             return "(Build_%s num %s)" % (sname, " ".join(args)), ("struct", sname)
         if k == "if":
-            c, _ = self.expr(e[1], env, "bool")
+            c, cty = self.expr(e[1], env, "bool")
+            if cty != "bool":
+                raise Untranslatable("if condition of type %r" % (cty,))
             ta, ty = self.block(e[2], env, want)
-            tb, tyb = self.block(e[3], env, ty) if e[3][0] == "block" else self.expr(e[3], env, ty)
-            if ty != tyb and not (isinstance(ty, tuple) and ty[0] == "option" and isinstance(tyb, tuple) and tyb[0] == "option"):
+            tb, tyb = self.body_of(e[3], env, ty if not (isinstance(ty, tuple) and ty[0] == "option" and ty[1] is None) else want)
+            both_opt = isinstance(ty, tuple) and ty[0] == "option" and isinstance(tyb, tuple) and tyb[0] == "option"
+            if ty != tyb and not (both_opt and (ty[1] is None or tyb[1] is None)):
                 raise Untranslatable("if branches differ: %r vs %r" % (ty, tyb))
-            if isinstance(ty, tuple) and ty[0] == "option" and ty[1] is None:
+            if both_opt and ty[1] is None:
                 ty = tyb
             return "(if %s then %s else %s)" % (c, ta, tb), ty
         if k == "block":
@@ -747,10 +945,24 @@ class Emitter:
             base = e[1]
             if base[0] == "path" and base[1][-1] in TABLES:
                 tname = base[1][-1]
-                ti, _ = self.expr(e[2], env, "N")
+                ti, tty = self.expr(e[2], env, "N")
+                if tty != "N":
+                    raise Untranslatable("table index of type %r" % (tty,))
                 return "(nth (N.to_nat %s) %s (zero num))" % (ti, TABLES[tname]), NUMT
             raise Untranslatable("index")
         raise Untranslatable("expr kind %s" % k)
+
+    def sq_expr(self, e, env):
+        """Coq text of (e)^2 for an expression built from .sqrt(), * and / : the square roots are dropped.
+        Used for items translated 'in squared form' (get_radius, dist_in_2r)."""
+        if e[0] == "mcall" and e[1] == "sqrt" and not e[3]:
+            txt, ty = self.expr(e[2], env, NUMT)
+            if ty != NUMT:
+                raise Untranslatable("sqrt on %r" % (ty,))
+            return txt
+        if e[0] == "bin" and e[1] in ("*", "/"):
+            return "(%s num %s %s)" % ("mul" if e[1] == "*" else "div", self.sq_expr(e[2], env), self.sq_expr(e[3], env))
+        raise Untranslatable("squared recipe: expression is not a product/quotient of square roots")
 
     def match(self, e, env, want):
         scrut, arms = e[1], e[2]
@@ -788,18 +1000,61 @@ class Emitter:
                 binder = "(" + ", ".join(names) + ")"
             else:
                 raise Untranslatable("Some pattern")
-            tsome, rty = (self.block(some_arm[1], env2, want) if some_arm[1][0] == "block" else self.expr(some_arm[1], env2, want))
-            tnone, _ = (self.block(none_arm[1], env, rty) if none_arm[1][0] == "block" else self.expr(none_arm[1], env, rty))
+            tsome, rty = self.body_of(some_arm[1], env2, want)
+            tnone, _ = self.body_of(none_arm[1], env, rty)
             return "(match %s with Some %s => %s | None => %s end)" % (ts, binder, tsome, tnone), rty
+        if isinstance(ty, tuple) and ty[0] == "enum":
+            ename = ty[1]
+            ctors = ENUMS[ename]
+            out = []
+            rty = None
+            covered = set()
+            for pat, body in arms:
+                if pat[0] == "pwild":
+                    t, bty = self.body_of(body, env, want if rty is None else rty)
+                    out.append("| _ => %s" % t)
+                    covered = {c for c, _ in ctors}
+                elif pat[0] == "pctor":
+                    spec = [c for c in ctors if c[0] == pat[1]]
+                    if not spec or len(spec[0][1]) != len(pat[2]):
+                        raise Untranslatable("pattern %s for enum %s" % (pat[1], ename))
+                    env2 = dict(env)
+                    names = []
+                    for sub, sty in zip(pat[2], spec[0][1]):
+                        if sub[0] == "pvar":
+                            b = fresh(sub[1])
+                            env2[sub[1]] = (b, sty)
+                            names.append(b)
+                        elif sub[0] == "pwild":
+                            names.append("_")
+                        else:
+                            raise Untranslatable("nested enum pattern")
+                    t, bty = self.body_of(body, env2, want if rty is None else rty)
+                    out.append("| %s_%s _ %s => %s" % (ename, pat[1], " ".join(names), t))
+                    covered.add(pat[1])
+                else:
+                    raise Untranslatable("enum match arm")
+                if rty is None:
+                    rty = bty
+                elif bty != rty:
+                    raise Untranslatable("match arms differ: %r vs %r" % (rty, bty))
+            if covered != {c for c, _ in ctors}:
+                raise Untranslatable("non-exhaustive match on %s" % ename)
+            return "(match %s with %s end)" % (ts, " ".join(out)), rty
         raise Untranslatable("match on %r" % (ty,))
 
-    def block(self, b, env, want=None):
+    def block(self, b, env, want=None, sq=False):
         assert b[0] == "block"
         env = dict(env)
         lets = []
         for st in b[1]:
             if st[0] == "let":
                 pat, e = st[1], st[2]
+                if pat[0] == "pvar" and pat[1] in self.opaque_lets:
+                    # a binding the model abstracts from: its value may only be used inside substituted expressions
+                    self.opaque_seen.add(pat[1])
+                    env.pop(pat[1], None)
+                    continue
                 te, ty = self.expr(e, env)
                 if pat[0] == "pvar":
                     name = fresh(pat[1])
@@ -819,13 +1074,18 @@ class Emitter:
                 else:
                     raise Untranslatable("let pattern")
             elif st[0] == "assert":
-                c, _ = self.expr(st[1], env, "bool")
-                self.asserts.append(" ".join(lets) + " " + c if lets else c)
+                c, cty = self.expr(st[1], env, "bool")
+                if cty != "bool":
+                    raise Untranslatable("assert on %r" % (cty,))
+                self.asserts.append("(" + " ".join(lets) + " " + c + ")" if lets else c)
             else:
                 raise Untranslatable("statement expression")
         if b[2] is None:
             raise Untranslatable("block without value")
-        tr, ty = self.expr(b[2], env, want)
+        if sq:
+            tr, ty = self.sq_expr(b[2], env), NUMT
+        else:
+            tr, ty = self.expr(b[2], env, want)
         return "(" + " ".join(lets) + " " + tr + ")" if lets else tr, ty
 
 
@@ -839,6 +1099,7 @@ def fresh(name):
 
 CONSTS = {}   # rust const name -> (coq text, ty)
 TABLES = {}   # rust const table name -> coq list name
+STRUCT_SKIP = {}   # struct name -> fields that exist in Rust but are not modelled (caches)
 
 
 # ------------------------------------------------------------------------------------------------
@@ -899,8 +1160,28 @@ def gen_consts(repo, man):
 
 
 class Item:
-    """One translated definition."""
-    def __init__(self, coq_name, file, impl_re, fn, key=None, self_struct=None, snippet=None, params=None, ret=None):
+    """One translated definition.
+
+    coq_name      name of the Gallina Definition
+    file          Rust source file (relative to the repository)
+    impl_re       regex of the enclosing `impl` header (None: whole file); the first impl that matches AND
+                  contains `fn <fn>` is used
+    fn            Rust function name
+    key           how other translated items call this one (`Type::fn` or `fn`)
+    self_struct   struct that `self`/`Self` denotes
+    snippet       regex with one group = expression text (closure bodies, single decisions inside big functions)
+    params        explicit [(name, ty)] for snippets
+    ret           expected result type (needed where the text alone does not determine it, e.g. a bare None)
+    out           generated file (module of SimilariGen) the definition goes to
+    subst         [(rust expression text, parameter name, ty)]: every occurrence of the expression becomes a
+                  fresh parameter of the Gallina function (cos/sin, square roots, PI, calls into code that
+                  is modelled elsewhere). Each entry MUST occur in the item, otherwise the tie is broken.
+    opaque_lets   names of `let` bindings the model abstracts from (their values may only be used inside
+                  substituted expressions); each MUST occur
+    squared       translate the square of the result: the result must be a product/quotient of .sqrt() calls
+    """
+    def __init__(self, coq_name, file, impl_re, fn, key=None, self_struct=None, snippet=None, params=None, ret=None,
+                 out="Scalar", subst=None, opaque_lets=(), squared=False):
         self.coq_name = coq_name
         self.file = file
         self.impl_re = impl_re
@@ -910,6 +1191,10 @@ class Item:
         self.snippet = snippet      # (regex with one group = expression text) for closure bodies
         self.params = params        # explicit [(name, ty)] for snippets
         self.ret = ret
+        self.out = out
+        self.subst = subst or []
+        self.opaque_lets = tuple(opaque_lets)
+        self.squared = squared
 
 
 def struct_def(repo, file, name, skip=()):
@@ -933,25 +1218,79 @@ def struct_def(repo, file, name, skip=()):
     return fields
 
 
+def enum_def(repo, file, name):
+    src = strip_comments(read(repo, file))
+    m = re.search(r"pub enum %s\s*\{" % name, src)
+    if not m:
+        raise Untranslatable("enum %s not found" % name)
+    b = src.index("{", m.start())
+    e = find_matching(src, b)
+    body = re.sub(r"#\[[^\]]*\]", "", src[b + 1:e])
+    ctors = []
+    for part in body.split(","):
+        part = part.strip()
+        if not part:
+            continue
+        mm = re.match(r"^(\w+)\s*(?:\(([^)]*)\))?$", part)
+        if not mm:
+            raise Untranslatable("enum %s: variant %r" % (name, part))
+        args = [rust_type_to_ty(a) for a in (mm.group(2) or "").split(",") if a.strip()]
+        for a in args:
+            if isinstance(a, tuple) and a[0] == "opaque":
+                raise Untranslatable("enum %s: variant argument %r" % (name, a))
+        ctors.append((mm.group(1), args))
+    return ctors
+
+
+def find_impl_with_fn(src, header_re, fn):
+    """(lo, hi) of the first impl block whose header matches and which contains `fn <fn>`."""
+    found_header = False
+    for m in re.finditer(header_re, src):
+        found_header = True
+        b = src.index("{", m.end() - 1)
+        e = find_matching(src, b)
+        if fn is None or re.compile(r"\bfn\s+%s\b" % re.escape(fn)).search(src, b, e):
+            return b, e
+    if not found_header:
+        raise Untranslatable("impl header not found: %s" % header_re)
+    raise Untranslatable("fn %s not found in any impl matching %s" % (fn, header_re))
+
+
 def translate_item(repo, it, items_table, man):
+    _fresh[0] = 0
     src = strip_comments(read(repo, it.file))
     lo, hi = 0, len(src)
     if it.impl_re:
-        lo, hi = find_impl(src, it.impl_re)
-    em = Emitter(items_table, it.self_struct)
+        lo, hi = find_impl_with_fn(src, it.impl_re, it.fn)
+    # substitutions become extra parameters
+    subst = {}
+    sub_binders = []
+    for (txt, pname, pty) in it.subst:
+        b = fresh(pname)
+        subst[canon_text(txt)] = (b, pty)
+        sub_binders.append((b, pty, txt))
+    em = Emitter(items_table, it.self_struct, subst, it.opaque_lets)
     if it.snippet:
         m = re.compile(it.snippet, re.S).search(src, lo, hi)
         if not m:
             raise Untranslatable("snippet for %s not found in %s" % (it.coq_name, it.file))
         text = m.group(1)
-        ast = Parser(tokenize(text)).expr()
+        p = Parser(tokenize(text))
+        ast = p.expr()
+        if p.peek()[0] != "eof":
+            raise Untranslatable("snippet for %s: trailing tokens after the expression: %r" % (it.coq_name, p.peek()[1]))
         env = {}
         binders = []
-        for (pn, pty) in it.params:
+        ptys = []
+        for (pn, pty) in (it.params or []):
             b = fresh(pn)
             env[pn] = (b, pty)
             binders.append("(%s : %s)" % (b, em.ty_str(pty)))
-        body, rty = em.expr(ast, env, it.ret)
+            ptys.append(pty)
+        if it.squared:
+            body, rty = em.sq_expr(ast, env), NUMT
+        else:
+            body, rty = em.expr(ast, env, it.ret)
         span = text
     else:
         params_src, ret_src, body_src, (s, e_) = find_fn(src, it.fn, lo, hi)
@@ -960,24 +1299,40 @@ def translate_item(repo, it, items_table, man):
         binders = []
         ptys = []
         for (pn, pty) in params:
-            ty = ("struct", it.self_struct) if pn == "self" else rust_type_to_ty(pty)
+            ty = ("struct", it.self_struct) if (pn == "self" and it.self_struct) else (("opaque", "self") if pn == "self" else rust_type_to_ty(pty))
+            if ty == ("struct", "Self"):
+                ty = ("struct", it.self_struct)
+            if isinstance(ty, tuple) and ty[0] == "opaque":
+                continue        # not modelled: any use outside a substituted expression is an error (unknown identifier)
             b = fresh(pn)
             env[pn] = (b, ty)
             binders.append("(%s : %s)" % (b, em.ty_str(ty)))
             ptys.append(ty)
-        ast = Parser(tokenize(body_src)).block()
+        p = Parser(tokenize(body_src))
+        ast = p.block()
         want = it.ret
-        body, rty = em.block(ast, env, want)
+        body, rty = em.block(ast, env, want, sq=it.squared)
         span = src[s:e_]
+    for (b, pty, txt) in sub_binders:
+        binders.append("(%s : %s)" % (b, em.ty_str(pty)))
+        ptys.append(pty)
+    unused = [txt for (txt, _, _) in it.subst if canon_text(txt) not in em.subst_used]
+    if unused:
+        raise Untranslatable("%s: expected expression(s) no longer present: %s" % (it.coq_name, "; ".join(unused)))
+    missing = [n for n in it.opaque_lets if n not in em.opaque_seen]
+    if missing:
+        raise Untranslatable("%s: expected let binding(s) no longer present: %s" % (it.coq_name, ", ".join(missing)))
+    if it.ret is not None and rty != it.ret:
+        raise Untranslatable("%s: result type %r, expected %r" % (it.coq_name, rty, it.ret))
     defs = []
     defs.append("Definition %s (num : NumOps) %s : %s :=\n  %s." % (it.coq_name, " ".join(binders), em.ty_str(rty), body))
     if em.asserts:
-        defs.append("Definition %s_pre (num : NumOps) %s : bool :=\n  %s." % (it.coq_name, " ".join(binders), " && ".join("(%s)" % a for a in em.asserts) if False else
-                                                                  _andb_chain(em.asserts)))
-    man["items"][it.coq_name] = {"file": it.file, "fn": it.fn, "sha256": hashlib.sha256(span.encode()).hexdigest(),
-                                 "casts_erased": em.casts, "asserts": len(em.asserts)}
-    ptys_out = [env[p][1] for p in env]
-    return "\n".join(defs), rty, ptys_out
+        defs.append("Definition %s_pre (num : NumOps) %s : bool :=\n  %s." % (it.coq_name, " ".join(binders), _andb_chain(em.asserts)))
+    man["items"][it.coq_name] = {"file": it.file, "fn": it.fn, "out": it.out, "sha256": hashlib.sha256(span.encode()).hexdigest(),
+                                 "casts_erased": em.casts, "wrappers_erased": em.erased, "asserts": len(em.asserts),
+                                 "parameters_for": [txt for (txt, _, _) in it.subst], "abstracted_lets": list(it.opaque_lets),
+                                 "squared": it.squared}
+    return "\n".join(defs), rty, ptys
 
 
 def _andb_chain(xs):
@@ -987,27 +1342,52 @@ def _andb_chain(xs):
     return r
 
 
+HEADER = "(* GENERATED by tools/rs2v.py from /repo on every run - do not edit. *)"
+IMPORTS = "From Coq Require Import ZArith NArith QArith Bool List.\nFrom Similari Require Import Base.Num.\nFrom SimilariGen Require Import Consts%s.\nImport ListNotations.\n"
+
+# generated files (modules of SimilariGen) in dependency order, with what each one imports
+GEN_FILES = [("Scalar", []), ("ScalarBox", ["Scalar"]), ("ScalarCost", ["Scalar"]), ("ScalarGate", ["Scalar", "ScalarBox", "ScalarCost"]),
+             ("ScalarClip", ["Scalar"])]
+
+
 def gen_scalar(repo, man):
-    out = []
-    out.append("(* GENERATED by tools/rs2v.py from /repo on every run - do not edit. *)")
-    out.append("From Coq Require Import ZArith NArith QArith Bool List.\nFrom Similari Require Import Base.Num.\nFrom SimilariGen Require Import Consts.\nImport ListNotations.\n")
-    
+    """Returns ({gen file -> text}, {gen file -> [error messages]}).  A file that has an error is still produced,
+    without the definitions that could not be translated (so that everything proved about them stops compiling)."""
+    texts = {}
+    errors = {}
+    for name, deps in GEN_FILES:
+        texts[name] = [HEADER, IMPORTS % "".join(" " + d for d in deps)]
+        errors[name] = []
+
     # constants visible to translated code
     CONSTS.clear()
     TABLES.clear()
     CONSTS["EPS"] = ("(of_Q num EPS)", NUMT)
     CONSTS["CHI2_UPPER_BOUND"] = ("(of_Q num CHI2_UPPER_BOUND)", NUMT)
+    out = texts["Scalar"]
     out.append("Definition CHI2INV95_T (num : NumOps) : list (T num) := map (of_Q num) CHI2INV95.")
     TABLES["CHI2INV95"] = "(CHI2INV95_T num)"
 
     # structs
     STRUCTS.clear()
+    ENUMS.clear()
+    STRUCT_SKIP.clear()
     STRUCTS["BoundingBox"] = struct_def(repo, "src/utils/bbox.rs", "BoundingBox")
     STRUCTS["Universal2DBox"] = struct_def(repo, "src/utils/bbox.rs", "Universal2DBox", skip=("_vertex_cache",))
+    STRUCT_SKIP["Universal2DBox"] = {"_vertex_cache"}
+    # geo::Coord<f64> (external crate): a pair of coordinates
+    STRUCTS["Coord"] = [("x", NUMT), ("y", NUMT)]
     em0 = Emitter({})
     for sname, fields in STRUCTS.items():
         out.append("Record %s (num : NumOps) := Build_%s { %s }." % (sname, sname, "; ".join("%s_%s : %s" % (sname, f, em0.ty_str(t)) for f, t in fields)))
     man["structs"] = {k: [f for f, _ in v] for k, v in STRUCTS.items()}
+    try:
+        ENUMS["PositionalMetricType"] = enum_def(repo, "src/trackers/sort.rs", "PositionalMetricType")
+        ctors = " | ".join("PositionalMetricType_%s%s" % (c, "".join(" (_ : %s)" % em0.ty_str(a) for a in args)) for c, args in ENUMS["PositionalMetricType"])
+        texts["ScalarGate"].append("Inductive PositionalMetricType (num : NumOps) := %s." % ctors)
+        man["enums"] = {k: [c for c, _ in v] for k, v in ENUMS.items()}
+    except Untranslatable as e:
+        errors["ScalarGate"].append("enum PositionalMetricType: %s" % e)
 
     items = [
         # C20
@@ -1022,12 +1402,19 @@ def gen_scalar(repo, man):
     ]
     items += EXTRA_ITEMS
     table = {}
+    known_files = {n for n, _ in GEN_FILES}
     for it in items:
-        text, rty, ptys = translate_item(repo, it, table, man)
-        out.append(text)
+        if it.out not in known_files:
+            raise Untranslatable("item %s: unknown output file %s" % (it.coq_name, it.out))
+        try:
+            text, rty, ptys = translate_item(repo, it, table, man)
+        except (Untranslatable, OSError, AssertionError, IndexError, KeyError, ValueError, TypeError) as e:
+            errors[it.out].append("%s (%s, fn %s): %s: %s" % (it.coq_name, it.file, it.fn, type(e).__name__, e))
+            texts[it.out].append("(* BROKEN TIE: %s could not be translated from %s: %s *)" % (it.coq_name, it.file, str(e).replace("*)", "* )")))
+            continue
+        texts[it.out].append(text)
         table[it.key] = (it.coq_name, rty, ptys)
-    
-    return "\n".join(out) + "\n"
+    return {k: "\n".join(v) + "\n" for k, v in texts.items()}, {k: v for k, v in errors.items() if v}
 
 
 EXTRA_ITEMS = []
@@ -1048,14 +1435,15 @@ def main():
     ap.add_argument("--out", default=os.path.join(os.path.dirname(os.path.dirname(os.path.abspath(__file__))), "coq", "gen"))
     a = ap.parse_args()
     os.makedirs(a.out, exist_ok=True)
-    man = {"consts": {}, "items": {}, "errors": []}
+    man = {"consts": {}, "items": {}, "errors": [], "errors_by_file": {}}
     rc = 0
     try:
         consts = gen_consts(a.repo, man)
         write_if_changed(os.path.join(a.out, "Consts.v"), consts)
     except (Untranslatable, OSError) as e:
         man["errors"].append("Consts: %s" % e)
-        print("rs2v: Consts: %s" % e)
+        man["errors_by_file"]["Consts"] = [str(e)]
+        print("rs2v: BROKEN TIE: Consts: %s" % e)
         rc = 1
     try:
         import rs2v_items
@@ -1063,11 +1451,19 @@ def main():
     except ImportError:
         pass
     try:
-        scalar = gen_scalar(a.repo, man)
-        write_if_changed(os.path.join(a.out, "Scalar.v"), scalar)
+        texts, errors = gen_scalar(a.repo, man)
+        for name, text in texts.items():
+            write_if_changed(os.path.join(a.out, name + ".v"), text)
+        for name, errs in errors.items():
+            for e in errs:
+                man["errors"].append("%s: %s" % (name, e))
+                print("rs2v: BROKEN TIE: %s: %s" % (name, e))
+            man["errors_by_file"][name] = errs
+            rc = 1
     except (Untranslatable, OSError) as e:
         man["errors"].append("Scalar: %s" % e)
-        print("rs2v: Scalar: %s" % e)
+        man["errors_by_file"]["Scalar"] = [str(e)]
+        print("rs2v: BROKEN TIE: Scalar: %s" % e)
         rc = 1
     with open(os.path.join(a.out, "manifest.json"), "w") as fh:
         json.dump(man, fh, indent=1, sort_keys=True)
